@@ -47,6 +47,10 @@ func main() {
 		for _, fn := range p.Funcs() {
 			fmt.Println(p.FuncName(fn), p.Pos(fn.Pos()))
 		}
+	case "findings":
+		// gqlvet findings <Cxx,Cyy|all>: one load, runs the named checks, prints "FINDING <prop> <kind> <key>" per finding
+		// (evidence is written to GQLVET_EVIDENCE or a temp dir; used by tools/sweep.py, not by MANIFEST commands)
+		os.Exit(runFindings(os.Args[2:]))
 	case "check":
 		if len(os.Args) < 4 {
 			usage()
@@ -92,4 +96,62 @@ func runCheck(id, tier string) (code int) {
 		thoroughExtras(c, pc)
 	}
 	return c.Finish()
+}
+
+func runFindings(args []string) int {
+	want := map[string]bool{}
+	if len(args) == 0 || args[0] == "all" {
+		for id := range props {
+			want[id] = true
+		}
+	} else {
+		for _, a := range args {
+			want[a] = true
+		}
+	}
+	p, err := Load(repoDir(), "")
+	if err != nil {
+		fmt.Println("FINDING * load", err)
+		return 1
+	}
+	var ids []string
+	for id := range want {
+		ids = append(ids, id)
+	}
+	sort.Strings(ids)
+	for _, id := range ids {
+		pc := props[id]
+		if pc == nil {
+			continue
+		}
+		func() {
+			c := &Ctx{Prop: id, Tier: "quick", P: p, start: time.Now(), Explanation: pc.explain, Extra: map[string]interface{}{}}
+			defer func() {
+				if r := recover(); r != nil {
+					fmt.Printf("FINDING %s panic %v\n", id, r)
+				}
+			}()
+			pc.run(c)
+			known, _ := loadKnown()
+			for _, r := range c.Rules {
+				if r.Instances < r.Floor {
+					fmt.Printf("FINDING %s floor %s instances<%d\n", id, r.ID, r.Floor)
+				}
+				for _, f := range r.Findings {
+					isKnown := false
+					if known != nil {
+						for _, k := range known.Known {
+							if k.Property == id && k.Key == f.Key {
+								isKnown = true
+							}
+						}
+					}
+					if !isKnown {
+						fmt.Printf("FINDING %s %s %s\n", id, f.Kind, f.Key)
+					}
+				}
+			}
+		}()
+	}
+	return 0
 }
